@@ -156,6 +156,21 @@ func apply(s state, o opSpec) (state, string) {
 		n := s.clone()
 		delete(n.cv, o.Name)
 		return n, "ok"
+	case "NewModule":
+		// a new module (a value >= 100 stands for a module) bound in the scope
+		n := s.clone()
+		n.cv[o.Name] = o.Val
+		return n, "ok"
+	case "Path":
+		// GetEnvFromPath([name]): the nearest scope in which name is bound to a
+		// MODULE answers; a binding to something else is passed over
+		if v, ok := s.cv[o.Name]; ok && v >= 100 {
+			return s, fmt.Sprint(v)
+		}
+		if v, ok := s.pv[o.Name]; ok && v >= 100 {
+			return s, fmt.Sprint(v)
+		}
+		return s, "err"
 	case "DeleteGlobal":
 		n := s.clone()
 		if _, ok := n.cv[o.Name]; ok {
@@ -193,11 +208,12 @@ func apply(s state, o opSpec) (state, string) {
 // ---------- history and linearizability ----------
 
 type opRec struct {
-	Thread int    `json:"t"`
-	Op     opSpec `json:"op"`
-	Call   int64  `json:"call"`
-	Ret    int64  `json:"ret"`
-	Out    string `json:"out"`
+	Thread int      `json:"t"`
+	Op     opSpec   `json:"op"`
+	Call   int64    `json:"call"`
+	Ret    int64    `json:"ret"`
+	Out    string   `json:"out"`
+	mod    *env.Env // the module an operation returned; numbered after the run
 }
 
 func histString(h []opRec) string {
@@ -282,7 +298,7 @@ func (sc scenario) String() string {
 		}
 		parts = append(parts, fmt.Sprintf("T%d:%s", i, strings.Join(ops, ";")))
 	}
-	cfg := []string{"a in child+parent", "a in parent only"}[sc.Cfg]
+	cfg := []string{"a in child+parent", "a in parent only", "a is a module in child and in parent"}[sc.Cfg]
 	return cfg + " | " + strings.Join(parts, " || ")
 }
 
@@ -306,12 +322,27 @@ var mutating = []opSpec{
 	{Kind: "Delete", Name: "a"}, {Kind: "DeleteGlobal", Name: "a"}, {Kind: "Copy"},
 }
 
+// the module family's alphabet (configuration 2)
+var moduleOps = []opSpec{
+	{Kind: "Path", Name: "a"}, {Kind: "Delete", Name: "a"}, {Kind: "Define", Name: "a"}, {Kind: "NewModule", Name: "a"},
+	{Kind: "Get", Name: "a"}, {Kind: "Copy"}, {Kind: "GetValueSymbols"},
+	// Set and DeleteGlobal are left out here: once the binding in the shared scope
+	// is gone they WRITE THE PARENT, and a path lookup - which passes over a
+	// non-module binding of the shared scope - then observes that the chain walk of
+	// Set is not one atomic step (Delete(a);Set(a) || Define(a);Path(a)).  The
+	// property's quantifier fixes a read-only parent, so such histories are outside
+	// it (see DESIGN 7b, "observed but outside what the properties state").
+}
+
 func withVals(threads [][]opSpec) [][]opSpec {
 	out := make([][]opSpec, len(threads))
 	for i, t := range threads {
 		for j, o := range t {
 			if o.Kind == "Define" || o.Kind == "Set" || o.Kind == "DefineGlobal" {
 				o.Val = int64((i+1)*10 + j + 1)
+			}
+			if o.Kind == "NewModule" {
+				o.Val = int64(1000 + (i+1)*10 + j + 1)
 			}
 			out[i] = append(out[i], o)
 		}
@@ -347,6 +378,25 @@ func scenarios(thorough bool) []scenario {
 	for i := 0; i < m*m; i++ {
 		for j := i; j < m*m; j++ {
 			add([][]opSpec{{mutating[i/m], mutating[i%m]}, {mutating[j/m], mutating[j%m]}}, -1)
+		}
+	}
+	// module family: a is bound to a module in the shared scope AND in its parent;
+	// path lookups against deletes, re-definitions and new modules
+	addM := func(threads [][]opSpec) {
+		res = append(res, scenario{Cfg: 2, Threads: withVals(threads), Bound: -1})
+	}
+	k := len(moduleOps)
+	for i := 0; i < k; i++ {
+		for j := i; j < k; j++ {
+			addM([][]opSpec{{moduleOps[i]}, {moduleOps[j]}})
+			for l := j; l < k; l++ {
+				addM([][]opSpec{{moduleOps[i]}, {moduleOps[j]}, {moduleOps[l]}})
+			}
+		}
+	}
+	for i := 0; i < k*k; i++ {
+		for j := i; j < k*k; j++ {
+			addM([][]opSpec{{moduleOps[i/k], moduleOps[i%k]}, {moduleOps[j/k], moduleOps[j%k]}})
 		}
 	}
 	if thorough {
@@ -425,22 +475,31 @@ func initState(cfg int) state {
 	if cfg == 0 {
 		s.cv["a"] = 2
 	}
+	if cfg == 2 {
+		s.pv["a"] = 101
+		s.cv["a"] = 102
+	}
 	return s
 }
 
 func readVal(v interface{}) string {
+	if m, ok := v.(*env.Env); ok {
+		return fmt.Sprintf("?module:%p", m) // resolved after the run (opRec.mod)
+	}
 	if i, ok := v.(int64); ok {
 		return fmt.Sprint(i)
 	}
 	return fmt.Sprintf("?%T:%v", v, v)
 }
 
-func dumpEnv(e *env.Env) (vals string, types string) {
+func dumpEnv(e *env.Env, mods map[*env.Env]int64) (vals string, types string) {
 	vm, tm := e.VerifRaw()
 	v := map[string]int64{}
 	for k, rv := range vm {
 		if rv.Kind() == reflect.Int64 {
 			v[k] = rv.Int()
+		} else if m, ok := rv.Interface().(*env.Env); ok && mods[m] != 0 {
+			v[k] = mods[m]
 		} else {
 			v[k] = -999
 		}
@@ -459,6 +518,12 @@ func runOnce(sc scenario, ch sched.Chooser, record bool) execResult {
 	e := parent.NewEnv()
 	if sc.Cfg == 0 {
 		e.DefineValue("a", cell(2))
+	}
+	mods := map[*env.Env]int64{} // module -> its number in the specification
+	if sc.Cfg == 2 {
+		pm, _ := parent.NewModule("a")
+		cm, _ := e.NewModule("a")
+		mods[pm], mods[cm] = 101, 102
 	}
 	s := sched.New(ch)
 	s.LockPoints = true
@@ -508,6 +573,22 @@ func runOnce(sc scenario, ch sched.Chooser, record bool) execResult {
 						rec.Out = "err"
 					} else {
 						rec.Out = readVal(v)
+						rec.mod, _ = v.(*env.Env)
+					}
+				case "NewModule":
+					m, err := e.NewModule(o.Name)
+					if err != nil {
+						rec.Out = "err"
+					} else {
+						mods[m] = o.Val
+						rec.Out = "ok"
+					}
+				case "Path":
+					m, err := e.GetEnvFromPath([]string{o.Name})
+					if err != nil {
+						rec.Out = "err"
+					} else {
+						rec.Out, rec.mod = "?module", m
 					}
 				case "Delete":
 					e.Delete(o.Name)
@@ -521,6 +602,7 @@ func runOnce(sc scenario, ch sched.Chooser, record bool) execResult {
 						rec.Out = "err"
 					} else if p.Kind() == reflect.Ptr {
 						rec.Out = readVal(p.Elem().Interface())
+						rec.mod, _ = p.Elem().Interface().(*env.Env)
 					} else {
 						rec.Out = "?notptr"
 					}
@@ -574,8 +656,11 @@ func runOnce(sc scenario, ch sched.Chooser, record bool) execResult {
 	res.trace = s.Trace
 	for ti := range hist {
 		for oi := range hist[ti] {
+			if m := hist[ti][oi].mod; m != nil {
+				hist[ti][oi].Out = fmt.Sprint(mods[m]) // 0: a module nobody created
+			}
 			if c, ok := copies[[2]int{ti, oi}]; ok && c != nil {
-				v, t := dumpEnv(c)
+				v, t := dumpEnv(c, mods)
 				hist[ti][oi].Out = "v{" + v + "}t{" + t + "}"
 				// a copy is a consistent snapshot: what its own tables hold must be
 				// what its API answers (the copy is private: checked after the run)
@@ -588,8 +673,8 @@ func runOnce(sc scenario, ch sched.Chooser, record bool) execResult {
 	}
 	if res.verdict == sched.OK {
 		// final read of the whole state
-		cv, ct := dumpEnv(e)
-		pv, pt := dumpEnv(parent)
+		cv, ct := dumpEnv(e, mods)
+		pv, pt := dumpEnv(parent, mods)
 		clock++
 		res.hist = append(res.hist, opRec{Thread: len(sc.Threads), Op: opSpec{Kind: "ReadAll"}, Call: clock, Ret: clock + 1,
 			Out: "cv{" + cv + "}ct{" + ct + "}pv{" + pv + "}pt{" + pt + "}"})
